@@ -184,6 +184,12 @@ def history_runs(ctx):
     BPROBES = [b'select "\xc3\xa9" from t; select 2', 'select \u00e9 from \u00fc'.encode('latin-1'), b'select 1 -- \xe9\n; x']    # bytes without an encoding: utf-8, else latin-1
     def probe():
         out = [(sqlparse.split(p), [streams.sexp(s) for s in sqlparse.parse(p)], sqlparse.format(p, reindent=True, keyword_case='upper')) for p in PROBES]
+        # every filter at least once, on a text with operators, comments, literals, a list and a CASE: a helper object a filter shares between calls shows here
+        OPS = "select a+b, c*d as e, 'a long literal' from t1 x, t2 y where x.i>=1 and y.j<>-2 /* c */ or f(a, b)=case when a then b else c end -- d\norder by 1"
+        for o in ({'use_space_around_operators': True}, {'strip_comments': True}, {'strip_whitespace': True}, {'reindent_aligned': True}, {'truncate_strings': 3},
+                  {'output_format': 'python'}, {'reindent': True, 'comma_first': True, 'indent_columns': True}, {'identifier_case': 'upper', 'keyword_case': 'capitalize'},
+                  {'strip_comments': True, 'use_space_around_operators': True, 'reindent': True}):
+            out.append(sqlparse.format(OPS, **o))
         out += [(sqlparse.split(b), [streams.sexp(s) for s in sqlparse.parse(b)], sqlparse.format(b, keyword_case='upper')) for b in BPROBES]
         out.append([(str(tt), v) for tt, v in lexer.tokenize(BPROBES[1])])
         return out
